@@ -163,8 +163,9 @@ class Engine:
             for k, r in zip(keys, rs):
                 self.refcache[k] = r
 
-    def evaluate_many(self, scs):
-        """Self-contained evaluation: references are (re)computed for exactly these scenarios."""
+    def evaluate_many(self, scs, tolerant=False):
+        """Self-contained evaluation: references are (re)computed for exactly these scenarios.
+        tolerant (minimisation only): a candidate the oracle cannot interpret counts as 'does not reproduce'."""
         scs = [self.refresh(sc) for sc in scs]
         self.ensure_refs(scs)
         rs = self.pool.map(scs)
@@ -173,7 +174,12 @@ class Engine:
             if r.get("killed"):
                 out.append([Violation(self.prop, "harness.killed", "wall-backstop")])
             else:
-                out.append(self.judge(sc, r, self.refcache))
+                try:
+                    out.append(self.judge(sc, r, self.refcache))
+                except Exception:
+                    if not tolerant:
+                        raise
+                    out.append([])
         return out, rs
 
     def record(self, idx, sc, vs):
@@ -376,7 +382,7 @@ def minimise(engine, sc, target_key, budget_s=60.0, log=None):
 
     def still(cands):
         nonlocal tested
-        vss, _ = engine.evaluate_many(cands)
+        vss, _ = engine.evaluate_many(cands, tolerant=True)
         tested += len(cands)
         for c, vs in zip(cands, vss):
             if any(v.key == target_key for v in vs):
